@@ -1,1 +1,308 @@
-// harnesses (h_comm)
+// Harnesses living inside `mod communicate` (file level): they see
+// Communicator's private fields, communicate(), from_utf8_lossy.
+#[cfg(kani)]
+mod vh_comm {
+    use super::*;
+    use crate::mk;
+    use crate::mk::comm as mc;
+    use crate::mk::comm::{ERR, IN, OUT};
+    use std::os::unix::io::FromRawFd;
+
+    /// the lateness obligation is decided in its own harness (known finding, see known_findings.json)
+    pub static mut LATE_CHECK: bool = false;
+
+    pub struct Ex {
+        pub c: Communicator,
+        pub use_in: bool,
+        pub use_out: bool,
+        pub use_err: bool,
+    }
+
+    /// Set up an exchange.  `fresh`: pipes empty and untouched (start of a real
+    /// exchange); otherwise arbitrary fill levels / offsets / closed peers (the
+    /// state in the middle of any exchange).
+    pub unsafe fn setup(use_in: bool, use_out: bool, use_err: bool, input_len: usize, fresh: bool, budget: u32) -> Ex {
+        mk::reset();
+        mk::init_std_fds();
+        mc::ENABLED = true;
+        mc::STEP_BUDGET = budget;
+        let mut fin = None;
+        let mut fout = None;
+        let mut ferr = None;
+        if use_in {
+            mc::open_stream(IN, 3, 0);
+            fin = Some(File::from_raw_fd(3));
+        }
+        if use_out {
+            mc::open_stream(OUT, 4, 1);
+            fout = Some(File::from_raw_fd(4));
+        }
+        if use_err {
+            mc::open_stream(ERR, 5, 2);
+            ferr = Some(File::from_raw_fd(5));
+        }
+        if fresh {
+            let mut s = 0;
+            while s < 3 {
+                if mc::S[s].used {
+                    mc::S[s].buffered = 0;
+                    mc::S[s].total_in = 0;
+                    mc::S[s].total_out = 0;
+                    mc::S[s].peer_open = true;
+                }
+                s += 1;
+            }
+        }
+        kani::assume(!use_out || !use_err || mc::S[OUT].tag != mc::S[ERR].tag);
+        mc::IN_BASE = mc::S[IN].total_in;
+        mc::INPUT_LEN = input_len;
+        let input = if use_in {
+            let mut v = Vec::with_capacity(input_len);
+            let mut i = 0;
+            while i < mc::INMAX {
+                if i < input_len {
+                    let b: u8 = kani::any();
+                    mc::INPUT[i] = b;
+                    v.push(b);
+                }
+                i += 1;
+            }
+            Some(v)
+        } else {
+            None
+        };
+        let c = communicate(fin, fout, ferr, input);
+        Ex { c, use_in, use_out, use_err }
+    }
+
+    pub const OUTMAX: usize = 12;
+
+    /// content of a returned vector: exactly the bytes taken out of the pipe
+    /// during this call, in order, starting at `base`
+    pub unsafe fn check_stream(s: usize, used: bool, got: &Option<Vec<u8>>, base: usize) {
+        vcheck!(C02, got.is_some() == used, "C02/absent-iff-not-piped: a stream's result is present although it was not piped (or absent although piped)");
+        if let Some(v) = got {
+            vcheck!(C02, v.len() == mc::S[s].total_out - base, "C02/nothing-lost-or-added: the number of bytes returned for a stream differs from the number of bytes read from its pipe in this call");
+            let mut i = 0;
+            while i < OUTMAX {
+                if i < v.len() {
+                    vcheck!(C02, v[i] == mc::g(mc::S[s].tag, base + i), "C02/bytes-verbatim-in-order: a returned byte is not the byte the child wrote at that position of that stream (lost, duplicated, reordered or credited to the other stream)");
+                }
+                i += 1;
+            }
+        }
+    }
+
+    pub unsafe fn all_eof(ex: &Ex) -> bool {
+        (!ex.use_out || (!mc::S[OUT].peer_open && mc::S[OUT].buffered == 0)) && (!ex.use_err || (!mc::S[ERR].peer_open && mc::S[ERR].buffered == 0))
+    }
+
+    /// One read() with optional size limit `n` and time limit `t`; asserts the
+    /// per-call obligations of C02/C03/C04.  Returns true iff it returned Ok.
+    pub unsafe fn one_read(mut ex: Ex, limit: Option<usize>, tlimit: Option<Duration>) -> (Ex, bool) {
+        let ob = mc::S[OUT].total_out;
+        let eb = mc::S[ERR].total_out;
+        mc::OUT_BASE = ob;
+        mc::ERR_BASE = eb;
+        let in_before = mc::S[IN].total_in;
+        let mut c = ex.c;
+        if let Some(n) = limit {
+            c = c.limit_size(n);
+            mc::LIMIT_SET = true;
+            mc::LIMIT = n;
+        }
+        if let Some(t) = tlimit {
+            c = c.limit_time(t);
+            mc::DEADLINE_SET = true;
+            mc::DEADLINE_S = mk::time::NOW_S + t.as_secs() as i64;
+            mc::DEADLINE_NS = mk::time::NOW_NS + t.subsec_nanos() as i64;
+            if mc::DEADLINE_NS >= 1_000_000_000 {
+                mc::DEADLINE_NS -= 1_000_000_000;
+                mc::DEADLINE_S += 1;
+            }
+        }
+        ex.c = c;
+        mc::IO_AFTER_DEADLINE = 0;
+        let r = ex.c.read();
+        let ok = r.is_ok();
+        match r {
+            Ok((o, e)) => {
+                kani::cover!(true, "COVER/read-returned-ok");
+                check_stream(OUT, ex.use_out, &o, ob);
+                check_stream(ERR, ex.use_err, &e, eb);
+                let n_out = match &o { Some(v) => v.len(), None => 0 };
+                let n_err = match &e { Some(v) => v.len(), None => 0 };
+                if let Some(n) = limit {
+                    kani::cover!(n_out + n_err == n && !all_eof(&ex), "COVER/cut-short-by-limit");
+                    vcheck!(C03, n_out + n_err <= n, "C03/at-most-n-bytes: a read returned more bytes in total than the size limit");
+                    vcheck!(C03, n_out + n_err > 0 || all_eof(&ex), "C03/empty-means-eof: a successful read returned all-empty data although a captured stream has not reached end-of-file");
+                    // cut short by the limit with input remaining: stdin stays open for later reads
+                    if ex.use_in && mc::S[IN].total_in - mc::IN_BASE < mc::INPUT_LEN && mc::S[IN].peer_open {
+                        vcheck!(C03, mc::S[IN].parent_open, "C03/input-keeps-flowing: the read was cut short by the limit with input left, but the child's stdin was closed");
+                    }
+                    // stopping short of the limit is only allowed at end-of-file
+                    vcheck!(C03, n_out + n_err == n || all_eof(&ex), "C03/fills-up-to-limit: a read returned fewer bytes than the limit although more output may still come");
+                } else {
+                    // without a size limit a successful read means everything is finished
+                    vcheck!(C02, all_eof(&ex), "C02/reads-to-eof: read() returned success although a captured stream had not reached end-of-file");
+                    if ex.use_in {
+                        vcheck!(C02, mc::S[IN].total_in - mc::IN_BASE == mc::INPUT_LEN, "C02/input-complete: read() returned success although not all input had been written");
+                        vcheck!(C02, !mc::S[IN].parent_open, "C02/eof-after-last-byte: all input written but the child's stdin is still open after read() returned");
+                    }
+                }
+                std::mem::forget((o, e));
+            }
+            Err(err) => {
+                kani::cover!(true, "COVER/read-returned-err");
+                let timed_out = err.error.kind() == ErrorKind::TimedOut;
+                kani::cover!(timed_out, "COVER/read-timed-out");
+                if timed_out {
+                    vcheck!(C04, tlimit.is_some(), "C04/no-timeout-without-limit: read() reported a timeout although no time limit was set");
+                    if tlimit.is_some() {
+                        // to the millisecond granularity of the OS wait: now + 1 ms > deadline
+                        let mut s1 = mk::time::NOW_S;
+                        let mut n1 = mk::time::NOW_NS + 1_000_000;
+                        if n1 >= 1_000_000_000 {
+                            n1 -= 1_000_000_000;
+                            s1 += 1;
+                        }
+                        let elapsed = s1 > mc::DEADLINE_S || (s1 == mc::DEADLINE_S && n1 > mc::DEADLINE_NS);
+                        vcheck!(C04, elapsed, "C04/timeout-only-when-elapsed: a timeout was reported before the time limit had elapsed");
+                    }
+                } else {
+                    // the only other error the model produces is EPIPE (child closed its stdin)
+                    vcheck!(C02, ex.use_in && !mc::S[IN].peer_open, "C02/errors-are-real: read() failed although no system call failed");
+                }
+                // the error carries everything captured during this call
+                check_stream(OUT, ex.use_out, &err.capture.0, ob);
+                check_stream(ERR, ex.use_err, &err.capture.1, eb);
+                std::mem::forget(err);
+            }
+        }
+        if tlimit.is_some() && LATE_CHECK {
+            vcheck!(C04, mc::IO_AFTER_DEADLINE <= 1, "C04/at-most-one-step-late: more than one I/O step was performed after the deadline had passed (the time limit is not honoured while streams stay ready)");
+        }
+        let _ = in_before;
+        mc::LIMIT_SET = false;
+        mc::DEADLINE_SET = false;
+        (ex, ok)
+    }
+
+    pub unsafe fn finish(ex: Ex) {
+        mc::CLOSE_BY_DROP = true;
+        std::mem::forget(ex);
+    }
+
+    /// One read() on a fresh exchange without limits, bounded by `budget` parent system calls.
+    pub unsafe fn trace_case(use_in: bool, use_out: bool, use_err: bool, input_len: usize, budget: u32) {
+        let ex = setup(use_in, use_out, use_err, input_len, true, budget);
+        let (ex, _) = one_read(ex, None, None);
+        finish(ex);
+    }
+
+    /// Inductive step: arbitrary mid-exchange state, one read() cut after `budget` system calls.
+    pub unsafe fn step_case(use_in: bool, use_out: bool, use_err: bool, input_len: usize, budget: u32) {
+        let ex = setup(use_in, use_out, use_err, input_len, false, budget);
+        let (ex, _) = one_read(ex, None, None);
+        finish(ex);
+    }
+
+    /// Two successive reads with symbolic size limits n1, n2 >= 1 (arbitrary mid-exchange start).
+    pub unsafe fn limit_case(use_in: bool, use_out: bool, use_err: bool, input_len: usize, budget: u32) {
+        let ex = setup(use_in, use_out, use_err, input_len, false, budget);
+        let n1: usize = kani::any();
+        let n2: usize = kani::any();
+        kani::assume(n1 >= 1 && n2 >= 1);
+        let (ex, ok1) = one_read(ex, Some(n1), None);
+        if ok1 {
+            let (ex, _) = one_read(ex, Some(n2), None);
+            kani::cover!(true, "COVER/second-limited-read");
+            finish(ex);
+        } else {
+            finish(ex);
+        }
+    }
+
+    pub unsafe fn any_now() {
+        mk::time::NOW_S = kani::any();
+        mk::time::NOW_NS = kani::any();
+        kani::assume(mk::time::NOW_S >= 0 && mk::time::NOW_S < (1 << 40) && mk::time::NOW_NS >= 0 && mk::time::NOW_NS < 1_000_000_000);
+    }
+
+    pub unsafe fn any_limit(big: bool) -> Duration {
+        let secs: u64 = kani::any();
+        let nanos: u32 = kani::any();
+        kani::assume(nanos < 1_000_000_000);
+        if big {
+            // beyond the OS poll limit of 2^31-1 ms (24.8 days)
+            kani::assume(secs >= 2_147_484 && secs <= 6_000_000);
+        } else {
+            kani::assume(secs <= 100);
+        }
+        Duration::new(secs, nanos)
+    }
+
+    /// One read with a time limit from an arbitrary mid-exchange state.
+    pub unsafe fn time_case(use_in: bool, use_out: bool, use_err: bool, input_len: usize, budget: u32, big: bool, late: bool, resume: bool) {
+        let ex = setup(use_in, use_out, use_err, input_len, false, budget);
+        any_now();
+        LATE_CHECK = late;
+        let t = any_limit(big);
+        let (ex, ok1) = one_read(ex, None, Some(t));
+        if resume && !ok1 {
+            // later reads resume exactly where the exchange stopped
+            let (ex, _) = one_read(ex, None, None);
+            kani::cover!(true, "COVER/resumed-after-error");
+            finish(ex);
+        } else {
+            finish(ex);
+        }
+    }
+
+    macro_rules! comm_harness {
+        ($name:ident, $f:ident, $i:expr, $o:expr, $e:expr, $l:expr, $b:expr) => {
+            #[kani::proof]
+            fn $name() {
+                mk::link_model();
+                unsafe { $f($i, $o, $e, $l, $b) }
+            }
+        };
+    }
+    comm_harness!(h_comm_trace_ioe, trace_case, true, true, true, 2, 5);
+    comm_harness!(h_comm_trace_io, trace_case, true, true, false, 1, 4);
+    comm_harness!(h_comm_trace_oe, trace_case, false, true, true, 0, 4);
+    comm_harness!(h_comm_trace_o, trace_case, false, true, false, 0, 4);
+    comm_harness!(h_comm_trace_i, trace_case, true, false, false, 2, 4);
+    comm_harness!(h_comm_step_ioe, step_case, true, true, true, 2, 3);
+    comm_harness!(h_comm_step_oe, step_case, false, true, true, 0, 3);
+    comm_harness!(h_comm_limit_oe, limit_case, false, true, true, 0, 4);
+    comm_harness!(h_comm_limit_io, limit_case, true, true, false, 2, 4);
+
+    macro_rules! time_harness {
+        ($name:ident, $i:expr, $o:expr, $e:expr, $l:expr, $b:expr, $big:expr, $late:expr, $resume:expr) => {
+            #[kani::proof]
+            fn $name() {
+                mk::link_model();
+                unsafe { time_case($i, $o, $e, $l, $b, $big, $late, $resume) }
+            }
+        };
+    }
+    time_harness!(h_comm_time_o, false, true, false, 0, 3, false, false, false);
+    time_harness!(h_comm_time_oe, false, true, true, 0, 3, false, false, false);
+    time_harness!(h_comm_time_io, true, true, false, 1, 3, false, false, false);
+    time_harness!(h_comm_time_big, false, true, false, 0, 3, true, false, false);
+    time_harness!(h_comm_time_resume, false, true, false, 0, 4, false, false, true);
+    time_harness!(h_comm_late_kf, false, true, false, 0, 4, false, true, false);
+
+    /// from_utf8_lossy(v) == String::from_utf8_lossy(&v) for every v of up to 4 bytes
+    #[kani::proof]
+    fn h_utf8_lossy() {
+        let b: [u8; 4] = kani::any();
+        let n: usize = kani::any();
+        kani::assume(n <= 4);
+        let v = b[..n].to_vec();
+        let want: String = String::from_utf8_lossy(&b[..n]).into_owned();
+        let got = from_utf8_lossy(v);
+        assert!(got == want, "C02/text-is-lossy-decoding: the text-returning variant differs from the lossy UTF-8 decoding of the bytes");
+    }
+}
